@@ -1,4 +1,5 @@
-"""Run a decoding script in a child interpreter whose process-wide text configuration differs from the parent's: C locale, UTF-8 mode
+"""Run a decoding script in a child interpreter whose process-wide configuration differs from the parent's (interpreter flags such as -bb,
+which turns str(bytes) into an error and cannot be switched on inside a running process; or, legacy=True:) C locale, UTF-8 mode
 off, no locale coercion (file-system encoding and preferred encoding are then ASCII).  What the library decodes from a file is a
 function of the file; it must not depend on the locale of the process."""
 import os
@@ -10,12 +11,15 @@ LEGACY_ENV = {'LC_ALL': 'C', 'LANG': 'C', 'PYTHONUTF8': '0', 'PYTHONCOERCECLOCAL
               'PYTHONDONTWRITEBYTECODE': '1'}
 
 
-def run(script, payload, repo, timeout=600):
+def run(script, payload, repo, timeout=600, flags=(), legacy=True):
     """script: python source reading a JSON document from stdin and printing one to stdout -> parsed output (or raises RuntimeError)"""
     env = {k: v for k, v in os.environ.items() if not k.startswith('LC_') and k not in ('LANG', 'LANGUAGE')}
-    env.update(LEGACY_ENV)
+    if legacy:
+        env.update(LEGACY_ENV)
+    else:
+        env.update({'PYTHONHASHSEED': '0', 'PYTHONDONTWRITEBYTECODE': '1', 'PYTHONIOENCODING': 'utf-8'})
     env['PYTHONPATH'] = repo
-    p = subprocess.run([sys.executable, '-c', script], input=json.dumps(payload).encode('ascii'), stdout=subprocess.PIPE, stderr=subprocess.PIPE, env=env, timeout=timeout)
+    p = subprocess.run([sys.executable] + list(flags) + ['-c', script], input=json.dumps(payload).encode('ascii'), stdout=subprocess.PIPE, stderr=subprocess.PIPE, env=env, timeout=timeout)
     if p.returncode != 0:
         raise RuntimeError('child interpreter failed: %s' % p.stderr.decode('utf-8', 'replace')[-600:])
     return json.loads(p.stdout.decode('utf-8'))
